@@ -1503,8 +1503,30 @@ pub trait QueryBuilder:
         if right_paren {
             write!(sql, "(").unwrap();
         }
-        self.prepare_simple_expr(right, sql);
+        if let (true, SimpleExpr::Binary(low, and, high)) = (drop_right_between_hack, right) {
+            // The bounds belong to BETWEEN, so they are parenthesized relative to it (not to AND).
+            self.prepare_between_bound(low, op, sql);
+            write!(sql, " ").unwrap();
+            self.prepare_bin_oper(and, sql);
+            write!(sql, " ").unwrap();
+            self.prepare_between_bound(high, op, sql);
+        } else {
+            self.prepare_simple_expr(right, sql);
+        }
         if right_paren {
+            write!(sql, ")").unwrap();
+        }
+    }
+
+    #[doc(hidden)]
+    /// Write a bound of `BETWEEN .. AND ..`, parenthesized unless it binds tighter than BETWEEN.
+    fn prepare_between_bound(&self, bound: &SimpleExpr, op: &BinOper, sql: &mut dyn SqlWriter) {
+        let drop_paren = self.inner_expr_well_known_greater_precedence(bound, &(*op).into());
+        if !drop_paren {
+            write!(sql, "(").unwrap();
+        }
+        self.prepare_simple_expr(bound, sql);
+        if !drop_paren {
             write!(sql, ")").unwrap();
         }
     }
